@@ -493,9 +493,11 @@ where
 {
     fn textual_order(&mut self) -> Vec<ResultTextSelection<'store>> {
         let mut v: Vec<_> = self.collect();
+        //(ties are broken on the resource, so equal items end up adjacent and dedup() catches them)
         v.sort_unstable_by(|a, b| {
             a.partial_cmp(b)
                 .expect("PartialOrd must work for ResultTextSelection")
+                .then_with(|| a.resource().handle().cmp(&b.resource().handle()))
         });
         v.dedup();
         v
@@ -676,7 +678,12 @@ where
         for textselection in self {
             textselections.extend(textselection.related_text(operator))
         }
-        textselections.sort_unstable_by(|a, b| a.partial_cmp(b).unwrap());
+        //(ties are broken on the resource, so equal items end up adjacent and dedup() catches them)
+        textselections.sort_unstable_by(|a, b| {
+            a.partial_cmp(b)
+                .unwrap()
+                .then_with(|| a.resource().handle().cmp(&b.resource().handle()))
+        });
         textselections.dedup();
         textselections.into_iter()
     }
